@@ -210,6 +210,8 @@
 (define-fun actOK ((r (Array Key Bytes)) (rid Bytes)) Bool
   (=> (isActive r rid) (and (requestFound r rid) (ctxFound r (reqCtxId r rid)) (bindFound r (reqSvc r rid) (reqProv r rid)) (ordinary (reqConsumer r rid))
         (= (BytesValue_Value (dec_BytesValue (select r (KActID rid)))) rid)
+        ; a recorded fee is never negative
+        (forall ((d Str)) (! (>= (amt (reqFee r rid) d) 0) :pattern ((amt (reqFee r rid) d))))
         ; the request id names its context and batch
         (= (ridCtx rid) (reqCtxId r rid)) (= (ridBatch rid) (CompactRequest_RequestContextBatchCounter (reqOf r rid)))
         ; a pending request belongs to the current, still open batch of its context
@@ -343,6 +345,10 @@
                (ite (RequestContext_Repeated (ctxOf r id)) (< (RequestContext_BatchCounter (ctxOf r id)) (select M id)) (= (RequestContext_BatchCounter (ctxOf r id)) 0))))))
 (define-fun cadInv ((r (Array Key Bytes)) (M (Array Bytes Int))) Bool
   (forall ((id Bytes)) (! (cadOK r M id) :pattern ((select r (KCtx id))) :pattern ((select r (KNewH id))))))
+; context id, whose consumer is a, is running with a batch in flight (what the new-batch handler leaves behind when it charges a)
+(define-fun issuedNow ((r (Array Key Bytes)) (id Bytes) (a Bytes)) Bool
+  (and (ctxFound r id) (= (RequestContext_Consumer (ctxOf r id)) a) (= (RequestContext_State (ctxOf r id)) RUNNING)
+       (= (RequestContext_BatchState (ctxOf r id)) BATCHRUNNING) (not (= (select r (KExpH id)) bnil))))
 ; no scheduled event lies before height H
 (define-fun futInv ((r (Array Key Bytes)) (H Int)) Bool
   (and (forall ((h Int) (id Bytes)) (! (=> (not (= (select r (KExpQ h id)) bnil)) (>= h H)) :pattern ((select r (KExpQ h id)))))
